@@ -154,8 +154,20 @@ def build(name):
             del b
             gc.collect()
             return r
+        def hold_again():
+            # keeps the first bound wrapper while looking the method up a second time
+            b = k.m
+            r = str(sigtools.signature(k.m))
+            del b
+            return r
+
+        def sig_gc():
+            import gc
+            r = str(sigtools.signature(k.m))
+            gc.collect()
+            return r
         return {'objs': {'w': K.__dict__['m']}, 'calls': {'sig': lambda: sigtools.signature(k.m), 'inspect': lambda: inspect.signature(k.m), 'bind': lambda: sigtools.signature(K().m),
-                                                           'hold_drop': hold_drop}}
+                                                           'hold_drop': hold_drop, 'hold_again': hold_again, 'sig_gc': sig_gc}}
     if name == 'forger_function':
         from sigtools import support
 
@@ -554,7 +566,7 @@ def crash_gen(seed, frac):
         rnd = random.Random(seed)
         k = 0
         for scen in SCENARIOS:
-            for call in ('sig', 'inspect', 'bind', 'noauto', 'partial', 'hold_drop'):
+            for call in ('sig', 'inspect', 'bind', 'noauto', 'partial', 'hold_drop', 'hold_again'):
                 if call not in build(scen)['calls']:
                     continue
                 n = count_crossings(scen, call)
@@ -594,6 +606,39 @@ FULL_ONE = {'forger_emulate_special'}
 SWEEP_CASES = [('method_kwo', ['hold_drop', 'sig']), ('method_kwo', ['hold_drop', 'inspect']), ('signature_attr_upgraded', ['noauto', 'partial']), ('wraps', ['sig', 'sig'])]
 
 
+def get_blocks(scenario, call):
+    """step indices (of a thread running this call alone) spent inside the descriptor's __get__, grouped into consecutive blocks"""
+    sc = build(scenario)
+    s = Sched([sc['calls'][call]], [(0, None)], Recorder())
+    s.run()
+    blocks, cur = [], []
+    for i, name in enumerate(s.trail[0]):
+        if name == '__get__':
+            cur.append(i)
+        elif cur:
+            blocks.append(cur)
+            cur = []
+    if cur:
+        blocks.append(cur)
+    return blocks
+
+
+# three preemptions around the bound-wrapper cache: both threads miss it, both store, one value dies while the other's key lives
+GET_SWEEPS = [('method_kwo', ['hold_again', 'sig_gc'])]
+
+
+def get_sweep_schedules(scen, calls):
+    b0, b1 = get_blocks(scen, calls[0]), get_blocks(scen, calls[1])
+    if len(b0) < 2 or not b1:
+        return
+    first0, second0, first1 = b0[0], b0[1], b1[0]
+    for n1 in range(first0[0], first0[-1] + 2):
+        for n2 in range(first1[0], first1[-1] + 2):
+            # thread 0 goes on: finishes its first look-up and stops somewhere before / inside its second one
+            for more in range(1, (second0[-1] + 2) - n1):
+                yield [(0, n1), (1, n2), (0, more), (1, None), (0, None)]
+
+
 def sched_gen(seed, n1, n2, sweep_all=False):
     """n1: number of one-preemption schedules per case, n2: of two-preemption ones (None = all one-preemption ones)"""
     import random
@@ -617,6 +662,11 @@ def sched_gen(seed, n1, n2, sweep_all=False):
             for s in scheds:
                 if k % nshards == shard:
                     yield sched_run('sched/%s-%s-%d' % (scen, '+'.join(calls), k), scen, calls, s)
+                k += 1
+        for scen, calls in GET_SWEEPS:
+            for sch in get_sweep_schedules(scen, calls):
+                if k % nshards == shard:
+                    yield sched_run('getsweep/%s-%s-%d' % (scen, '+'.join(calls), k), scen, calls, sch)
                 k += 1
         for scen, calls in SWEEP_CASES + (SCHED_CASES if sweep_all else []):
             steps = [count_steps(scen, c) for c in calls]
@@ -667,7 +717,19 @@ def stress_run(tid, scenario, calls, rounds):
         bad = [r for r in results[t] if r != alone[t]]
         res.append({'t': t, 'call': c, 'res': bad[0] if bad else alone[t], 'raised': (bad[0] if bad else alone[t]).startswith('raise:'), 'alone': alone[t], 'again': alone[t]})
     # the stress run keeps only the window events (ordered per thread by the recorder's lock) and one call interval per thread
-    ev = [{'t': t, 'ev': 'CallStart', 'obj': '-', 'attr': '-'} for t in range(len(calls))] + rec.events + [{'t': t, 'ev': 'CallEnd', 'obj': '-', 'attr': '-'} for t in range(len(calls))]
-    return {'tid': tid, 'op': 'run', 'kind': 'sched', 'scenario': scenario, 'events': ev[:4000], 'before': b, 'after': a, 'changed': changed, 'guard_after': guard_size(),
+    # the monitor gets at most ~4000 hook events: the log is cut where NO window is open (a cut in the middle of a window would look like an
+    # attribute that is never restored)
+    body, open_windows, cut = rec.events, 0, 0
+    for pos, x in enumerate(body[:4000]):
+        if x['ev'] == 'WindowEnter':
+            open_windows += 1
+        elif x['ev'] == 'WindowExit':
+            open_windows -= 1
+        if open_windows == 0:
+            cut = pos + 1
+    if len(body) <= 4000 and open_windows == 0:
+        cut = len(body)
+    ev = [{'t': t, 'ev': 'CallStart', 'obj': '-', 'attr': '-'} for t in range(len(calls))] + body[:cut] + [{'t': t, 'ev': 'CallEnd', 'obj': '-', 'attr': '-'} for t in range(len(calls))]
+    return {'tid': tid, 'op': 'run', 'kind': 'sched', 'scenario': scenario, 'events': ev, 'before': b, 'after': a, 'changed': changed, 'guard_after': guard_size(),
             'results': res, 'fault': {'k': 0, 'exc': '-', 'site': '-'}, 'points': [],
             'case': {'kind': 'stress', 'scenario': scenario, 'calls': calls, 'schedule': [], 'points': []}}
